@@ -139,6 +139,43 @@ def check(case, assemblies, stats, classes, exact):
                 chrom = r[0].split("_unloc_")[0]
                 if r[1] != chrom[len(prefix):] if chrom.startswith(prefix) else r[1] != chrom:
                     raise Violation(f"assembly {key}: chromosome list line {r}: chromosome column should be {chrom[len(prefix):]!r}")
+    # ---- every painted Pretext scaffold with a placeable localised piece yields its chromosome in its haplotype's assembly
+    import math
+
+    t = float(case["t"])
+    M = 3 * (1 + math.floor(t))
+    input_rows = {n: r for n, r in case["input"]}
+    lengths = {n: ref.rows_len(r) for n, r in case["input"]}
+    haps = [h.lower() for h in case.get("haps", [])]
+    target_seen = False
+    by_key = {("none" if k is None else str(k).lower()): scs for k, scs in assemblies}
+    for pname, rows in case["map"]:
+        nt, hp, painted = pinfo[pname]
+        frs = [r for r in rows if r[0] == "F"]
+        sc_tags = {x for r in frs for x in r[5]}
+        if "Target" in sc_tags:
+            target_seen = True
+        if not painted or (target_seen and "Target" not in sc_tags):
+            continue
+        main = [r for r in frs if not set(r[5]) & {"Haplotig", "Contaminant", "FalseDuplicate", "Unloc"}]
+        solid = False
+        for r in main:
+            lo, hi = r[2] + M + 1, min(r[3], lengths[r[1]]) - M - 1
+            if lo <= hi and ref.core_segments(input_rows[r[1]], lo, hi, r[4]):
+                solid = True
+        if not solid:
+            continue
+        want_key = hp or "none"
+        got = [s for s in by_key.get(want_key, []) if s["orig"] == pname and s["rank"] in (1, 2) and "_unloc_" not in s["name"]]
+        if len(got) != 1:
+            raise Violation(
+                f"painted Pretext scaffold {pname} (name tag {nt}, haplotype {hp}) should give exactly one chromosome scaffold in assembly "
+                f"'{want_key}', found {[s['name'] for s in got]} there; scaffolds from it elsewhere: "
+                f"{[(k, s['name']) for k, scs in assemblies for s in scs if s['orig'] == pname]}")
+        if nt and got[0]["name"] != prefix + nt:
+            raise Violation(f"name-tagged scaffold {pname} ({nt}) is called {got[0]['name']!r}, expected {prefix + nt!r}")
+        if nt:
+            classes.add("named_chromosome")
     # ---- numbering across haplotypes
     all_numbers = sorted({n for d in numbers.values() for n in d})
     if all_numbers != list(range(1, len(all_numbers) + 1)):
@@ -283,6 +320,8 @@ SUBS = [
         budget={"quick": 12000, "thorough": 250000}, desc="names, ranks, order and CSVs on texel-grid maps (lengths taken from the output)"),
     Sub("exact", kind="hyp", strategy=lambda: gen.tagged_case(many_painted=True, exact=True, max_scaffolds=8, max_contigs=5, unloc_weight=3), body=body_exact,
         budget={"quick": 8000, "thorough": 150000}, desc="t = 1, cuts on contig boundaries: exact lengths, frequent ties, unloc size order"),
+    Sub("slivers", kind="hyp", strategy=lambda: gen.tagged_case(many_painted=True, slivers=True, max_scaffolds=5, max_contigs=6, unloc_weight=2, piece_tag_weight=3, two_haplotypes=False), body=body,
+        budget={"quick": 8000, "thorough": 150000}, desc="fractional texels, gaps of about two texels, many cuts near contig ends: pieces that cover mostly gap (overlap results emptied by trimming)"),
     Sub("cli", kind="hyp", strategy=lambda: gen.tagged_case(many_painted=True, max_scaffolds=5, max_contigs=4), body=body_cli,
         budget={"quick": 240, "thorough": 3000}, desc="files written by the CLI: unique object names, chromosome scaffolds first, chromosome list CSV"),
 ]
